@@ -214,6 +214,12 @@ short-cut and its cross-engine refusal), as translated from the current Python s
 theorem bridge_join_begin_apply (j : JoinOp) (l r : Rel) : Gen.Join_begin_apply j l r = joinBeginApply j l r :=
   Bridge.Join_begin_apply_eq j l r
 
+/-- Tie to the source: `Join._finish_apply` (join-identity short-cuts, the refusal of operands in different engines and
+of an unsupported predicate), as translated from the current Python source on this run, is the model's. -/
+theorem bridge_join_finish_apply (j : JoinOp) (l r : Rel) :
+    Gen.Join_finish_apply j l r = binaryFinishApply (.join j) l r :=
+  Bridge.Join_finish_apply_eq j l r
+
 /-- Tie to the source: `PartialJoin._begin_apply` (the column check of `relation.join`), as translated from the current
 Python source on this run, is the model's `PJoin.beginApply`. -/
 theorem bridge_partial_join_begin_apply (fuel : Nat) (p : PJoin) (t : Rel) (pref : Option Engine) :
